@@ -23,6 +23,7 @@ import json
 import os
 import typing as T
 
+LAST_RUN: T.Dict[str, T.Any] = {"renames_undone": [], "dropped": []}
 _BASELINE: T.Optional[T.Dict[str, T.Dict[str, str]]] = None
 
 
@@ -932,7 +933,7 @@ def normalise_program(trees: T.Dict[str, ast.Module]) -> T.Dict[str, int]:
     out = {m: 0 for m in trees}
     if os.environ.get("VERIF_NO_NORMALISE"):
         return out
-    undo_renames(trees)
+    LAST_RUN["renames_undone"] = undo_renames(trees)
     inliners: T.Dict[str, Inliner] = {}
     for m, tree in trees.items():
         known = dict(baseline().get(m, {}))
@@ -985,10 +986,12 @@ def normalise_program(trees: T.Dict[str, ast.Module]) -> T.Dict[str, int]:
         except RecursionError:
             continue
         out[m] = inl.expanded
+    LAST_RUN["dropped"] = []
     for m, inl in inliners.items():
         inl.foreign_refs = foreign(m)
         inl._drop_unreferenced()
         ast.fix_missing_locations(inl.tree)
+        LAST_RUN["dropped"] += [f"{m}.{d}" for d in inl.dropped]
     return out
 
 
